@@ -10,7 +10,7 @@ LEVEL = "exploration"
 RULE = ("cases = SEQUENCES of 1-4 foreign calls in one program (a single call also inside a function, two functions deep, or inside the callback of list.map / list.filter), each call = (library: one of two builds of the probe that tag their output differently - under `lib<name>.so` or under a versioned name / an own extension / no extension / in a dotted directory, each with a decoy of the OTHER build under the name a normalised spelling would give - or a missing file) x (argument vector of length 0-6 over int, bigint, float, byte, bool, str with boundary values and "
         "format-special characters) x (return form: first argument echoed back, last argument echoed back, no value, raised error with a fixed message, raised error whose message is made of the string arguments - one or several lines - and must be reported whole) "
         "+ the fault cases missing library / missing symbol; the harness writes BINARY bytecode itself (its own encoder: "
-        "push each argument, call_lib, printn *, make_str AFTER, printn *) and a probe dylib built against the working tree's "
+        "push each argument, call_lib, then printn * / void alone (result discarded) / store + load + printn *, make_str AFTER, printn *) and a probe dylib built against the working tree's "
         "bytecode crate prints the Debug form of the slice it receives. Oracle: the probe's lines equal the generated vector in "
         "order; after the call `printn *` shows exactly the returned value (or nothing); for a raised error or a missing "
         "library/symbol: exit status 1, stderr carries the message, `AFTER` is not printed. Non-trivial = >= 2 arguments of >= 2 "
@@ -176,7 +176,14 @@ def build(case):
     for c in calls:
         lib, form, vec = c["lib"], c["form"], c["args"]
         fn = c.get("symbol") or FORMS[form]
-        one = [push(v) for v in vec] + [("call_lib", [LIBFILE[lib], fn]), ("printn", ["*"]), ("void", [])]
+        # what the program does with the result: print it (the default), DISCARD it (`void` directly behind the call - a call in
+        # statement position), or store it in a variable first
+        use = c.get("use", "print")
+        if use == "store" and (form in ("none", "only1") or not vec):
+            use = "print"               # nothing to store when no value comes back
+        after = {"print": [("printn", ["*"]), ("void", [])], "discard": [("void", [])],
+                 "store": [("store", ["kept"]), ("load", ["kept"]), ("printn", ["*"]), ("void", [])]}[use]
+        one = [push(v) for v in vec] + [("call_lib", [LIBFILE[lib], fn])] + after
         if ctx != "module":
             one, functions, repeat = in_context(ctx, one)
         instrs += one
@@ -197,7 +204,9 @@ def build(case):
             # the WHOLE message, every line of it (the report indents continuation lines: compared modulo leading blanks)
             failed = "FFI: says <%s>" % "|".join(x for k, x in vec if k == "str")
             continue
-        if form in ("none", "only1") or not vec:
+        if use == "discard":
+            pass                        # nothing is printed for a discarded result
+        elif form in ("none", "only1") or not vec:
             exp.append("")
         else:
             exp.append(display(vec[0] if form == "first" else vec[-1]))
@@ -274,6 +283,16 @@ def enumerated(tier, seed):
                 cases.append({"args": args, "form": f, "ctx": cx})
         for fault in ("missing-library", "missing-symbol"):
             cases.append({"args": [("int", 1)], "form": "first", "fault": fault, "ctx": cx})
+    # every return form with its result DISCARDED / STORED instead of printed, at module level and inside a function
+    for use in ("discard", "store"):
+        for f in ("first", "last", "none", "error", "errtext"):
+            for args in ([("int", 7), ("str", "x y")], [], [("str", "two\nlines"), ("bigint", 2 ** 64)]):
+                cases.append({"calls": [{"lib": 1, "form": f, "args": args, "symbol": None, "use": use}]})
+                cases.append({"calls": [{"lib": 1, "form": f, "args": args, "symbol": None, "use": use}], "ctx": "fn"})
+                cases.append({"calls": [{"lib": 2, "form": "first", "args": [("int", 1)], "symbol": None}, {"lib": 1, "form": f, "args": args, "symbol": None, "use": use},
+                                        {"lib": 1, "form": "last", "args": [("int", 3)], "symbol": None}]})
+        for fault, sym, lib in (("missing-library", None, "missing"), ("missing-symbol", "probe_does_not_exist", 1)):
+            cases.append({"calls": [{"lib": lib, "form": "first", "args": [("int", 1)], "symbol": sym, "use": use}]})
     for nm in NAMED:
         for f in ("first", "none", "error", "only1"):
             cases.append({"calls": [{"lib": nm, "form": f, "args": [("int", 7), ("str", "x y")], "symbol": None}]})
@@ -330,7 +349,7 @@ def sequences(draw):
         args = draw(vectors())
         fault = g.weighted([(12, None), (1, "missing-library"), (1, "missing-symbol")])
         calls.append({"lib": "missing" if fault == "missing-library" else g.choice([1, 1, 2] + (list(NAMED) if g.chance(30) else [])), "form": g.choice(["first", "last", "none", "error", "errtext", "only1", "first", "last"]),
-                      "args": args, "symbol": "probe_does_not_exist" if fault == "missing-symbol" else None})
+                      "args": args, "symbol": "probe_does_not_exist" if fault == "missing-symbol" else None, "use": g.weighted([(6, "print"), (2, "discard"), (2, "store")])})
     return {"calls": calls, "ctx": ctx} if len(calls) == 1 else {"calls": calls}
 
 
